@@ -426,7 +426,11 @@ def main():
                                 samples=samples, dropped_by_extraction=JOBS.DROPPED, explanation=JOBS.PROP_NOTES.get(prop, '')),
                   assumptions=JOBS.ASSUMPTIONS + JOBS.PROP_ASSUMPTIONS.get(prop, []))
         if total == 0 or discharged == 0:
+            # nothing proved without a bound: not a proof-level result
             ev['level'] = 'other'
+            if not ev['coverage']['explanation'].strip():
+                ev['coverage']['explanation'] = ('bounded contract checking: every obligation of this property that was decided (%d of %d, see coverage.bounded) was decided '
+                                                 'by CBMC under a stated bound on a container or loop; none is counted as proved' % (b_ok, b_total))
         os.makedirs(os.path.join(VERIF, 'evidence'), exist_ok=True)
         json.dump(ev, open(os.path.join(VERIF, 'evidence', prop + '.json'), 'w'), indent=1)
         print('%s: %d functions under contract, %d/%d obligations discharged (+%d/%d bounded), %d known findings, %d violations, %d inconclusive, %.1fs'
